@@ -336,10 +336,19 @@ func (svr *Server) Close() error {
 		svr.lntls.Close()
 	}
 
+	// Stop all services at the same time: a service whose processor is waiting
+	// for room in another service's outgoing buffer can only finish stopping
+	// once that other service is being stopped as well.
+	var wg sync.WaitGroup
 	for _, svc := range svr.svcs {
 		log.Tracef("Stopping service: %d", svc.id)
-		svc.stop()
+		wg.Add(1)
+		go func(svc *service) {
+			defer wg.Done()
+			svc.stop()
+		}(svc)
 	}
+	wg.Wait()
 
 	if svr.sessMgr != nil {
 		svr.sessMgr.Close()
